@@ -988,8 +988,9 @@ func c06CloseGuard(c *Ctx) {
 
 // ---------------------------------------------------------------------------
 
-func c06RejectCloses(c *Ctx) {
-	rule := "C06.reject-closes"
+func c06RejectCloses(c *Ctx) { c06RejectClosesAs(c, "C06.reject-closes") }
+
+func c06RejectClosesAs(c *Ctx, rule string) {
 	c.Rule(rule, "A2: a method used to validate a fresh backend destroys it before returning the validation error; (*DB).Reload validates fresh backends with such a method; a new *DB is returned only after the old generation's Destroy")
 	destroyF := c.TypesFunc("db", "(*DB).Destroy")
 	validate := c.TypesFunc("db", "(*DB).ValidateDbKey")
